@@ -59,7 +59,11 @@ void DeclarationBinder::typeDeclarationAtTopWithTypeAtTop()
     TY_AT_TOP(auto ty, );
     typeableDecl->setType(ty);
 
-    if (!openFuncTys_.empty()) {
+    // Only a parameter adds to the type of the function being declared: the members
+    // of a tag declared within a parameter declaration (`void f(enum E { A } e);') are
+    // typed while that function type is open as well.
+    if (!openFuncTys_.empty()
+            && decl->kind() == SymbolKind::ParameterDeclaration) {
         PSY_ASSERT_2(openFuncTys_.top(), return);
         openFuncTys_.top()->addParameterType(ty);
     }
